@@ -351,7 +351,17 @@ func (d *differ) diff(a, b reflect.Value, path string) (string, string) {
 		}
 	case reflect.Pointer, reflect.Interface:
 		if a.IsNil() != b.IsNil() {
-			return path, fmt.Sprintf("nil=%v vs nil=%v", a.IsNil(), b.IsNil())
+			desc := func(v reflect.Value) string {
+				switch {
+				case v.IsNil():
+					return "nil"
+				case v.Elem().IsZero():
+					return "zero-value"
+				}
+				return "value"
+			}
+			// the leading "<x> vs <y>" is machine-read by the callers (direction of the loss)
+			return path, fmt.Sprintf("%s vs %s (nil=%v vs nil=%v)", desc(a), desc(b), a.IsNil(), b.IsNil())
 		}
 		if a.IsNil() {
 			return "", ""
